@@ -1269,3 +1269,538 @@ func ruleVecFresh(p *Prog, r *Result) {
 	}
 	r.floor("vector entry points returning a column", n, 20)
 }
+
+// ---------------- SUBCHUNK ----------------
+
+func init() {
+	register("SUBCHUNK", "the per-chunk caches of the context are by position and are found by the chunk's first key, so above the scans a chunk is evaluated as it was received: wherever a function outside the scan plans hands a []KVPair together with an execution context to vector evaluation (ExecuteBatch, FilterBatch, or a package function taking both), the chunk is one of its own parameters or the batch its child plan just returned - not a re-slice, a filtered copy or a chunk assembled here (those would hit the columns cached for the whole chunk)", ruleSubChunk)
+}
+
+func ruleSubChunk(p *Prog, r *Result) {
+	isChunk := func(t types.Type) bool {
+		sl, ok := t.Underlying().(*types.Slice)
+		return ok && typeName(sl.Elem()) == "KVPair"
+	}
+	isCtx := func(t types.Type) bool { return typeName(deref(t)) == "ExecuteCtx" }
+	plans, _, _ := p.planTypes()
+	scanFns := map[*ssa.Function]bool{}
+	for _, t := range plans {
+		cl := p.planClass(t)
+		if cl == "range" || cl == "prefix" || cl == "full" || cl == "point" {
+			for _, m := range p.methodsOf(t) {
+				scanFns[m] = true
+				for _, g := range p.staticClosure(m, 2, nil) {
+					if g.Signature.Recv() != nil && typeName(deref(g.Signature.Recv().Type())) == t.Obj().Name() {
+						scanFns[g] = true
+					}
+				}
+			}
+		}
+	}
+	n := 0
+	for _, fn := range p.Funcs {
+		if scanFns[fn] || len(fn.Blocks) == 0 {
+			continue
+		}
+		idx := 0
+		allInstrs(fn, func(in ssa.Instruction) {
+			ci, ok := in.(ssa.CallInstruction)
+			if !ok {
+				return
+			}
+			cc := ci.Common()
+			var chunk, ctx ssa.Value
+			for _, a := range cc.Args {
+				if isChunk(a.Type()) {
+					chunk = a
+				}
+				if isCtx(a.Type()) {
+					ctx = a
+				}
+			}
+			if chunk == nil || ctx == nil || isNilConst(ctx) {
+				return
+			}
+			name := ""
+			if cc.IsInvoke() {
+				name = cc.Method.Name()
+			} else if g := cc.StaticCallee(); g != nil && p.InPkg(g) {
+				name = g.Name()
+			} else {
+				return
+			}
+			// only callees that can reach vector evaluation matter (the row-mode filter loops over Execute)
+			if g := cc.StaticCallee(); g != nil {
+				reachesVec := g.Name() == "ExecuteBatch"
+				for _, h := range p.staticClosure(g, 3, nil) {
+					allInstrs(h, func(in2 ssa.Instruction) {
+						if c2, ok := in2.(ssa.CallInstruction); ok && c2.Common().IsInvoke() && c2.Common().Method.Name() == "ExecuteBatch" {
+							reachesVec = true
+						}
+					})
+				}
+				if !reachesVec {
+					return
+				}
+			}
+			n++
+			idx++
+			okv := false
+			// a context emptied just before holds no column of another chunk
+			allInstrs(fn, func(in2 ssa.Instruction) {
+				if c2, ok := in2.(*ssa.Call); ok {
+					if g := c2.Call.StaticCallee(); g != nil && g.Name() == "Clear" && len(c2.Call.Args) > 0 && c2.Call.Args[0] == ctx && instrDominates(c2, in) {
+						okv = true
+					}
+				}
+			})
+			switch x := chunk.(type) {
+			case *ssa.Parameter:
+				okv = true
+			case *ssa.Extract:
+				if c, isC := x.Tuple.(*ssa.Call); isC && x.Index == 0 {
+					if c.Call.IsInvoke() && c.Call.Method.Name() == "Batch" {
+						okv = true
+					} else if g := c.Call.StaticCallee(); g != nil && g.Name() == "Batch" {
+						okv = true
+					}
+				}
+			case *ssa.Phi:
+				// the same batch on every way (e.g. refilled in a loop): each edge a parameter or a child batch
+				okv = true
+				for _, e := range x.Edges {
+					switch y := e.(type) {
+					case *ssa.Parameter:
+					case *ssa.Extract:
+						c, isC := y.Tuple.(*ssa.Call)
+						if !isC || y.Index != 0 || !((c.Call.IsInvoke() && c.Call.Method.Name() == "Batch") || (c.Call.StaticCallee() != nil && c.Call.StaticCallee().Name() == "Batch")) {
+							okv = false
+						}
+					case *ssa.Const:
+					default:
+						okv = false
+					}
+				}
+			}
+			r.add(okv, fmt.Sprintf("%s|%s#%d", p.FName(fn), name, idx), p.InstrPos(in), "the chunk given to "+name+" together with the context is the function's own chunk parameter or the batch just returned by the child plan")
+		})
+	}
+	r.floor("calls handing a chunk and a context to vector evaluation", n, 30)
+}
+
+// ---------------- PLANSTACK ----------------
+
+func init() {
+	register("PLANSTACK", "the plans that evaluate expressions on whole chunks (their methods reach ExecuteBatch) sit directly on a scan: every value stored into the pair-level ChildPlan field of such a plan is traced back (through interface boxing, phis, parameters and the builders' returns) to scan plans only - never to a pair-level plan built here that drops, reorders or re-slices rows (a limit pushed below the projection): the scan leaves by-position columns in the context for exactly the rows it returned", rulePlanStack)
+}
+
+func rulePlanStack(p *Prog, r *Result) {
+	plans, finals, err := p.planTypes()
+	if err != nil {
+		r.undecided("%v", err)
+		return
+	}
+	scan := map[string]bool{}
+	for _, t := range plans {
+		switch p.planClass(t) {
+		case "range", "prefix", "full", "point", "no-read":
+			wrapper := false
+			if st, ok := t.Underlying().(*types.Struct); ok {
+				for i := 0; i < st.NumFields(); i++ {
+					if st.Field(i).Name() == "ChildPlan" {
+						wrapper = true
+					}
+				}
+			}
+			if !wrapper {
+				scan[t.Obj().Name()] = true
+			}
+		}
+	}
+	// consumers: final plans with a pair-level child whose methods reach vector evaluation
+	consumer := map[string]bool{}
+	for _, t := range finals {
+		st, ok := t.Underlying().(*types.Struct)
+		if !ok {
+			continue
+		}
+		hasPairChild := false
+		for i := 0; i < st.NumFields(); i++ {
+			if st.Field(i).Name() == "ChildPlan" && typeName(st.Field(i).Type()) == "Plan" {
+				hasPairChild = true
+			}
+		}
+		if !hasPairChild {
+			continue
+		}
+		vec := false
+		for _, m := range p.methodsOf(t) {
+			for _, g := range p.staticClosure(m, 2, nil) {
+				allInstrs(g, func(in ssa.Instruction) {
+					if c, ok := in.(ssa.CallInstruction); ok && c.Common().IsInvoke() && c.Common().Method.Name() == "ExecuteBatch" {
+						vec = true
+					}
+				})
+			}
+		}
+		if vec {
+			consumer[t.Obj().Name()] = true
+		}
+	}
+	r.note("scan_plans", keysOf(scan))
+	r.note("chunk_evaluating_plans", keysOf(consumer))
+	var roots func(v ssa.Value, depth int, seen map[ssa.Value]bool) string
+	roots = func(v ssa.Value, depth int, seen map[ssa.Value]bool) string {
+		if v == nil || seen[v] {
+			return ""
+		}
+		seen[v] = true
+		if depth > 8 {
+			return "provenance too deep"
+		}
+		switch x := v.(type) {
+		case *ssa.MakeInterface:
+			return roots(x.X, depth, seen)
+		case *ssa.ChangeInterface:
+			return roots(x.X, depth, seen)
+		case *ssa.Phi:
+			for _, e := range x.Edges {
+				if m := roots(e, depth, seen); m != "" {
+					return m
+				}
+			}
+			return ""
+		case *ssa.Alloc:
+			tn := typeName(deref(x.Type()))
+			if scan[tn] {
+				return ""
+			}
+			return "a " + tn + " built at " + p.InstrPos(x)
+		case *ssa.Extract:
+			return roots(x.Tuple, depth, seen)
+		case *ssa.TypeAssert:
+			return roots(x.X, depth, seen)
+		case *ssa.Call:
+			g := x.Call.StaticCallee()
+			if g == nil || !p.InPkg(g) || len(g.Blocks) == 0 {
+				return "result of " + callDesc(p, x)
+			}
+			for _, b := range g.Blocks {
+				if ret := retOf(b); ret != nil && len(ret.Results) > 0 {
+					if m := roots(retVal(ret, 0), depth+1, seen); m != "" {
+						return m
+					}
+				}
+			}
+			return ""
+		case *ssa.Parameter:
+			fn := x.Parent()
+			idx := -1
+			for i, pa := range fn.Params {
+				if pa == x {
+					idx = i
+				}
+			}
+			ncall := 0
+			for _, caller := range p.Funcs {
+				var msg string
+				allInstrs(caller, func(in ssa.Instruction) {
+					ci, ok := in.(ssa.CallInstruction)
+					if !ok || ci.Common().StaticCallee() != fn || msg != "" || idx >= len(ci.Common().Args) {
+						return
+					}
+					ncall++
+					msg = roots(ci.Common().Args[idx], depth+1, seen)
+				})
+				if msg != "" {
+					return msg
+				}
+			}
+			if ncall == 0 {
+				return "" // public entry: the caller's plan
+			}
+			return ""
+		case *ssa.UnOp:
+			if x.Op == token.MUL {
+				if al, ok := x.X.(*ssa.Alloc); ok {
+					for _, sv := range storedInto(al) {
+						if m := roots(sv, depth+1, seen); m != "" {
+							return m
+						}
+					}
+					return ""
+				}
+			}
+		case *ssa.Const:
+			return ""
+		}
+		return "value of unknown origin " + v.String()
+	}
+	n := 0
+	for _, fn := range p.Funcs {
+		allInstrs(fn, func(in ssa.Instruction) {
+			st, ok := in.(*ssa.Store)
+			if !ok {
+				return
+			}
+			o, f, _, ok := fieldOfAddr(st.Addr)
+			if !ok || o == nil || f != "ChildPlan" || !consumer[o.Obj().Name()] {
+				return
+			}
+			n++
+			m := roots(st.Val, 0, map[ssa.Value]bool{})
+			r.add(m == "", fmt.Sprintf("%s|%s.ChildPlan#%d", p.FName(fn), o.Obj().Name(), n), p.InstrPos(st), firstNonEmpty(map[bool]string{true: "the child of " + o.Obj().Name() + " can be " + m}[m != ""], "the child of "+o.Obj().Name()+" is a scan plan on every way"))
+		})
+	}
+	r.floor("stores to the pair-level ChildPlan of chunk-evaluating plans", n, 2)
+}
+
+// ---------------- AGGRKIND ----------------
+
+func init() {
+	register("AGGRKIND", "the kind of an aggregate's result depends only on the kinds of its inputs: (a) in every Complete method, for each assignment of the accumulator's Boolean fields all successful returns box one and the same Go type (a result that is int64 for some groups and float64 for others makes arithmetic around it and ORDER BY on it behave differently per group); (b) such a Boolean field is set (outside constructors) only to a value, or under a test, derived from the classification of the argument's kind (the Boolean result of convertToNumber / a type assertion) - never under a test of the values accumulated so far", ruleAggrKind)
+}
+
+func ruleAggrKind(p *Prog, r *Result) {
+	n := 0
+	conv := p.Func("convertToNumber")
+	for _, fn := range p.Funcs {
+		if fn.Name() != "Complete" || fn.Signature.Recv() == nil || len(fn.Blocks) == 0 || fn.Signature.Results().Len() != 2 {
+			continue
+		}
+		recvT := namedOf(deref(fn.Signature.Recv().Type()))
+		if recvT == nil {
+			continue
+		}
+		tname := recvT.Obj().Name()
+		// the Boolean fields the method branches on
+		flags := map[string]bool{}
+		for _, b := range fn.Blocks {
+			if f := ifOf(b); f != nil {
+				if a, ok := condAtom(f.Cond, true); ok {
+					if o, fl, _, isF := loadedField(a.X); isF && o != nil && o.Obj().Name() == tname {
+						if _, isB := constBool(a.Y); isB {
+							flags[fl] = true
+						}
+					}
+				}
+			}
+		}
+		names := keysOf(flags)
+		n++
+		bad := ""
+		for mask := 0; mask < 1<<len(names); mask++ {
+			val := map[string]bool{}
+			for i, nm := range names {
+				val[nm] = mask&(1<<i) != 0
+			}
+			reach := walkAssuming(fn, decideAtoms(func(a Atom) (bool, bool) {
+				if o, fl, _, isF := loadedField(a.X); isF && o != nil && o.Obj().Name() == tname && flags[fl] {
+					if bv, isB := constBool(a.Y); isB {
+						return true, ((a.Op == token.EQL) == bv) == val[fl]
+					}
+				}
+				return false, false
+			}))
+			kinds := map[string]bool{}
+			for _, b := range orderedBlocks(fn, reach) {
+				ret := retOf(b)
+				if ret == nil || !isNilConst(retVal(ret, 1)) {
+					continue
+				}
+				switch x := retVal(ret, 0).(type) {
+				case *ssa.MakeInterface:
+					kinds[types.TypeString(x.X.Type(), func(*types.Package) string { return "" })] = true
+				case *ssa.Const:
+					// nil result: no value
+				default:
+					kinds["?"+x.Type().String()] = true
+				}
+			}
+			if len(kinds) > 1 {
+				bad = fmt.Sprintf("with %v the successful returns box %v", val, keysOf(kinds))
+			}
+		}
+		r.add(bad == "", tname+".Complete", p.Pos(fn.Pos()), firstNonEmpty(bad, fmt.Sprintf("one result kind per assignment of %v", names)))
+		// (b) where the flags are set
+		for _, m := range p.methodsOf(recvT) {
+			if m.Name() == "Complete" {
+				continue
+			}
+			idx := 0
+			allInstrs(m, func(in ssa.Instruction) {
+				st, ok := in.(*ssa.Store)
+				if !ok {
+					return
+				}
+				o, fl, base, ok := fieldOfAddr(st.Addr)
+				if !ok || o == nil || o.Obj().Name() != tname || !flags[fl] {
+					return
+				}
+				if _, fresh := base.(*ssa.Alloc); fresh {
+					return // a literal being built
+				}
+				idx++
+				isKindFlag := func(v ssa.Value) bool {
+					return mentions(v, func(x ssa.Value) bool {
+						ex, ok := x.(*ssa.Extract)
+						if !ok {
+							return false
+						}
+						switch t := ex.Tuple.(type) {
+						case *ssa.Call:
+							return conv != nil && t.Call.StaticCallee() == conv && ex.Index == 2
+						case *ssa.TypeAssert:
+							return ex.Index == 1
+						}
+						return false
+					}, 6)
+				}
+				okv := false
+				if _, isC := constBool(st.Val); !isC {
+					okv = isKindFlag(st.Val)
+				} else {
+					// a constant: every test on the way here that is not about the flag itself or the kind must be absent
+					okv = true
+					kindSeen := false
+					for _, a := range dominatingAtoms(st.Block()) {
+						if isKindFlag(a.X) || isKindFlag(a.Y) {
+							kindSeen = true
+							continue
+						}
+						if o2, f2, _, isF := loadedField(a.X); isF && o2 != nil && o2.Obj().Name() == tname && flags[f2] {
+							continue
+						}
+						// a test on what was accumulated so far (any other field of the accumulator)
+						onState := func(v ssa.Value) bool {
+							return mentions(v, func(x ssa.Value) bool {
+								o3, f3, _, isF := loadedField(x)
+								return isF && o3 != nil && o3.Obj().Name() == tname && !flags[f3]
+							}, 6)
+						}
+						if onState(a.X) || onState(a.Y) {
+							okv = false
+						}
+					}
+					okv = okv && kindSeen
+				}
+				r.add(okv, fmt.Sprintf("%s.%s|%s#%d", tname, m.Name(), fl, idx), p.InstrPos(st), "the result-kind flag "+fl+" is set from the kind of the argument only")
+			})
+		}
+	}
+	r.floor("accumulator Complete methods", n, 6)
+}
+
+// ---------------- BETWEENORDER ----------------
+
+func init() {
+	register("BETWEENORDER", "BETWEEN means lower <= x <= upper with the boundaries as written: every evaluator the Between operator is dispatched to compares its two boundary values with each other and fails on one outcome of that comparison (it does not swap them) - the scan-range optimizer turns `key between a and b` into the region [a, b] as written, which is empty when a > b, so an evaluator accepting reversed boundaries would select rows the access path never reads", ruleBetweenOrder)
+}
+
+func ruleBetweenOrder(p *Prog, r *Result) {
+	row := p.MethodByName("BinaryOpExpr", "Execute")
+	bat := p.MethodByName("BinaryOpExpr", "ExecuteBatch")
+	if row == nil || bat == nil {
+		r.undecided("anchor: (*BinaryOpExpr).Execute/ExecuteBatch not found")
+		return
+	}
+	fns := map[*ssa.Function]bool{}
+	for _, top := range []*ssa.Function{row, bat} {
+		tab, err := p.dispatchTable(top)
+		if err != nil {
+			r.undecided("%v", err)
+			return
+		}
+		for _, cls := range []string{"str", "num"} {
+			if e := tab["Between"][cls]; e != nil {
+				fns[e.Callee] = true
+			}
+		}
+	}
+	isLeftDerived := func(v ssa.Value) bool {
+		return derivesFrom(v, func(x ssa.Value) bool {
+			c, ok := x.(*ssa.Call)
+			if !ok || !c.Call.IsInvoke() {
+				return false
+			}
+			if nm := c.Call.Method.Name(); nm != "Execute" && nm != "ExecuteBatch" {
+				return false
+			}
+			return p.derivesFromField(c.Call.Value, "BinaryOpExpr", "Left", traceOpts{})
+		})
+	}
+	n := 0
+	var names []*ssa.Function
+	for f := range fns {
+		names = append(names, f)
+	}
+	sort.Slice(names, func(i, j int) bool { return names[i].Name() < names[j].Name() })
+	for _, fn := range names {
+		n++
+		results := map[ssa.Value]bool{} // Boolean results of comparisons of the two boundaries
+		allInstrs(fn, func(in ssa.Instruction) {
+			c, ok := in.(*ssa.Call)
+			if !ok || len(c.Call.Args) != 3 {
+				return
+			}
+			g := c.Call.StaticCallee()
+			if g == nil || !p.InPkg(g) || g.Signature.Recv() != nil || !strings.Contains(g.Name(), "Compare") {
+				return
+			}
+			if isLeftDerived(c.Call.Args[0]) || isLeftDerived(c.Call.Args[1]) {
+				return
+			}
+			if res := extractOf(c, 0); res != nil {
+				results[res] = true
+			}
+		})
+		found := len(results)
+		failing := map[ssa.Value]bool{}
+		for _, b := range fn.Blocks {
+			f := ifOf(b)
+			if f == nil {
+				continue
+			}
+			a, ok := condAtom(f.Cond, true)
+			if !ok {
+				continue
+			}
+			var tested []ssa.Value
+			for _, v := range []ssa.Value{a.X, a.Y} {
+				if results[v] {
+					tested = append(tested, v)
+				}
+				if ph, isPhi := v.(*ssa.Phi); isPhi {
+					all := len(ph.Edges) > 0
+					for _, e := range ph.Edges {
+						if !results[e] {
+							all = false
+						}
+					}
+					if all {
+						tested = append(tested, ph.Edges...)
+					}
+				}
+			}
+			if len(tested) == 0 {
+				continue
+			}
+			for si, sc := range b.Succs {
+				if !edgeDominates(b, si, sc) {
+					continue
+				}
+				if ret := retOf(sc); ret != nil && len(ret.Results) > 0 {
+					ev := retVal(ret, len(ret.Results)-1)
+					if _, isC := ev.(*ssa.Call); isC && !isNilConst(ev) {
+						for _, t := range tested {
+							failing[t] = true
+						}
+					}
+				}
+			}
+		}
+		fails := len(failing)
+		r.add(found > 0 && fails >= found, p.FName(fn), p.Pos(fn.Pos()), fmt.Sprintf("the two boundaries are compared with each other (%d comparison(s)) and one outcome is an error (%d)", found, fails))
+	}
+	r.floor("evaluators of BETWEEN", n, 2)
+}
